@@ -30,6 +30,10 @@ type C13Op struct {
 type C13Case struct {
 	Ops     []C13Op `json:"ops"`
 	Connect int     `json:"connect"` // operations before Connect
+	// CancelFeed > 0: during the dispatch of the CancelFeed-th fed event, the first callback that
+	// runs cancels the request's context (what a consumer does when it has seen enough). That
+	// event must still reach every subscribed callback; later feeds are skipped.
+	CancelFeed int `json:"cancelfeed,omitempty"`
 }
 
 func genC13Ops(t *rapid.T, n int, feed bool) []C13Op {
@@ -60,6 +64,9 @@ func genC13(t *rapid.T) C13Case {
 	n := 2 + stats.Pick(t, 28, "nops")
 	c := C13Case{Ops: genC13Ops(t, n, true)}
 	c.Connect = stats.Pick(t, n+1, "connect")
+	if stats.Pct(t, "cancelfeed") >= 80 {
+		c.CancelFeed = 1 + stats.Pick(t, 4, "cancelfeedn")
+	}
 	return c
 }
 
@@ -112,8 +119,12 @@ func checkC13(t *testing.T, c C13Case) (v *stats.Verdict) {
 				return &http.Response{StatusCode: 200, Header: http.Header{}, Body: body, Request: r}, nil
 			})},
 		}
-		req, _ := http.NewRequestWithContext(context.Background(), http.MethodGet, "http://harness.invalid/", nil)
+		ctx, cancelCtx := context.WithCancel(context.Background())
+		defer cancelCtx()
+		req, _ := http.NewRequestWithContext(ctx, http.MethodGet, "http://harness.invalid/", nil)
 		conn := cl.NewConnection(req)
+		cancelNow := false // set while the event that triggers the cancellation is being fed
+		cancelled := false
 
 		var log []invocation
 		type cbInfo struct {
@@ -149,7 +160,13 @@ func checkC13(t *testing.T, c C13Case) (v *stats.Verdict) {
 					typ = "*"
 				}
 				cbs = append(cbs, cbInfo{typ, true})
-				f := func(e sse.Event) { log = append(log, invocation{id, e.Data, e.Type}) }
+				f := func(e sse.Event) {
+					if cancelNow && !cancelled {
+						cancelled = true
+						cancelCtx()
+					}
+					log = append(log, invocation{id, e.Data, e.Type})
+				}
 				var rm sse.EventCallbackRemover
 				switch {
 				case op.Kind == "all":
@@ -183,10 +200,11 @@ func checkC13(t *testing.T, c C13Case) (v *stats.Verdict) {
 				}
 				cbs[removerOf[k]].live = false
 			case "feed":
-				if !connected {
-					continue // nothing is streaming yet
+				if !connected || cancelled {
+					continue // nothing is streaming yet / the consumer has cancelled
 				}
 				feeds++
+				cancelNow = feeds == c.CancelFeed
 				data := fmt.Sprintf("e%d", feeds)
 				before := len(log)
 				body.ch <- wire(op.Type, data)
@@ -230,6 +248,10 @@ func checkC13(t *testing.T, c C13Case) (v *stats.Verdict) {
 				if len(want) == 0 {
 					v.Class("event-without-subscriber")
 				}
+				if cancelNow && cancelled {
+					v.Class("context-cancelled-inside-a-dispatch")
+				}
+				cancelNow = false
 			}
 		}
 		if !connected {
